@@ -67,11 +67,20 @@ func VerifH_C07_VectorLengths() {
 	u := []uint64{0, 1, T - 1, T, T + 1, 1 << 63, ^uint64(0), (T - 1) / 2, (T + 1) / 2, 12345678901234567}
 	s := []int64{0, 1, -1, half, -half, half + 1, -half - 1, int64(T), -int64(T), -1 << 63, 1<<63 - 1, 42}
 	for _, batched := range []bool{true, false} {
-		for _, level := range []int{0, params.MaxLevel()} {
+		for _, level := range []int{0, params.MaxLevel(), -1} {
+			// (level -1: the maximum level again, with a plaintext kept out of the NTT domain)
+			ntt := level >= 0
+			if !ntt {
+				level = params.MaxLevel()
+			}
 			for _, ln := range []int{0, 1, 3, len(u), n} {
 				tag := "batched" + vItoa(vB2I(batched)) + "-L" + vItoa(level) + "-len" + vItoa(ln)
+				if !ntt {
+					tag += "-plaintext-outside-the-NTT-domain"
+				}
 				pt := NewPlaintext(params, level)
 				pt.IsBatched = batched
+				pt.IsNTT = ntt
 				pt.Scale = rlwe.NewScale(7)
 				in := make([]uint64, ln)
 				for i := range in {
